@@ -662,4 +662,68 @@ let () =
         | 2 -> spec_value_bin emit (List.nth binops (8 + rand_int r 3)) sz (rand_value r (pick r int_types)) (rand_value r (pick r int_types))
         | _ -> spec_value_bin emit (List.nth binops (rand_int r 17)) sz (rand_value r t) (rand_value r t2)
       done)
+
+(* ------------------------------------------------------------------ c07.specrun: gimli (generic values printed
+   modulo the address size) against the EXTRACTED SPECIFICATION MACHINE Spec/StackMachine.v spec_run — the stack
+   machine over canonical values through the sp_* algebra; theorem eval_refines proves the model's canonical trace
+   equal to it for every input of this domain (address size 1/2/4/8, Rust-valued configuration and answers). *)
+let specrun_case emit (c : ecfg) (prog : int list) (answers : answer list) =
+  if c.e.asz = 1 || c.e.asz = 2 || c.e.asz = 4 || c.e.asz = 8 then begin
+    let cfg : cfg = { c_enc = enc_of c.e; c_obj = Option.map n_of_z c.obj; c_max = Option.map n_of_int c.maxit;
+                      c_init = Option.map n_of_z c.init;
+                      c_cap_stack = (if c.small then Some (nat_of_int 3) else None);
+                      c_cap_expr = (if c.small then Some (nat_of_int 1) else None);
+                      c_cap_res = (if c.small then Some (nat_of_int 2) else None);
+                      c_canon = None } in
+    let fuel = nat_of_int (match c.maxit with Some m -> min (m + 2) 5000 | None -> 4000) in
+    let bs = bytes_of_ints prog in
+    let case = Printf.sprintf "c07.specrun %s %s %s %s %s %s%s" (enc_toks c.e)
+        (sopt string_of_int c.maxit) (sopt Z.to_string c.init) (sopt Z.to_string c.obj) (if c.small then "s" else "h")
+        (hex_of_ints prog) (String.concat "" (List.map (fun a -> " " ^ show_ans a) answers)) in
+    both emit case (fun _ -> show_trace (StackMachine.spec_run (n_of_int c.e.asz) the_fops fuel cfg bs answers))
+  end
+
+let () =
+  register "c07.specrun" ~doc:"whole evaluations: gimli (canonical reading) against the extracted specification stack machine (Spec/StackMachine.v spec_run, theorem eval_refines): exhaustive short programs over the C07 alphabet after clean and dirty preludes, address sizes 1/2/4/8; random programs with loops, branches, requests, calls, typed values, pieces"
+    (fun ~seed ~n emit ->
+      List.iter (fun asz ->
+        let e = { asz; f64 = false; ver = 4; be = (asz = 2) } in
+        let al = alphabet e in
+        let m = p2 (8 * asz) in
+        let cst z = (match asz with 1 -> [0x08] | 2 -> [0x0a] | 4 -> [0x0c] | _ -> [0x0e]) @ fixed e.be asz z in
+        (* clean prelude (three values incl. M-1) and dirty prelude (containers beyond the address size: 5M+2, -1) *)
+        let clean = { e; maxit = Some 14; init = None; obj = None; small = false }, [0x33] @ cst (Z.pred m) @ [0x31] in
+        let dirty = { e; maxit = Some 14; init = Some (Z.logand (Z.add m (Z.of_int 3)) m64); obj = None; small = false },
+                    (if asz < 8 then [0x0e] @ fixed e.be 8 (Z.add (Z.mul m (Z.of_int 5)) (Z.of_int 2)) @ [0x31; 0x1f]
+                     else cst (Z.pred m) @ [0x31; 0x1f]) in
+        List.iter (fun (c, pre) ->
+          specrun_case emit c pre [];
+          Array.iter (fun a -> specrun_case emit c (pre @ a) [];
+            Array.iter (fun b -> specrun_case emit c (pre @ a @ b) []) al) al) [clean; dirty];
+        (* a container that is a non-zero multiple of M (canonically 0) on top: bra / compare / div-by-zero must see 0 *)
+        if asz < 8 then begin
+          let zc = { e; maxit = Some 14; init = None; obj = None; small = false } in
+          let zpre = [0x31; 0x0e] @ fixed e.be 8 (Z.mul m (Z.of_int 5)) in
+          specrun_case emit zc zpre [];
+          Array.iter (fun a -> specrun_case emit zc (zpre @ a) [];
+            Array.iter (fun b -> specrun_case emit zc (zpre @ a @ b) []) al) al
+        end;
+        (* every letter alone and every pair on the empty stack / with an initial value and small storage *)
+        let c0 = { e; maxit = Some 14; init = Some (Z.of_int 5); obj = None; small = true } in
+        Array.iter (fun a -> specrun_case emit c0 a [];
+          Array.iter (fun b -> specrun_case emit c0 (a @ b) []) al) al) [1; 2; 4; 8];
+      let r = mk_rng (seed + 707) in
+      let encs = Array.of_list (List.filter (fun e -> e.asz = 1 || e.asz = 2 || e.asz = 4 || e.asz = 8) main_encs) in
+      for _ = 1 to n do
+        let e = pick r encs in
+        let prog = rand_prog r e 2 (1 + rand_int r 8) in
+        let answers = List.init (rand_int r 8) (fun _ -> rand_answer r e 2) in
+        let c = { e; maxit = (if rand_int r 8 = 0 then None else Some (rand_int r 40));
+                  init = (if rand_int r 3 = 0 then Some (rand_u r) else None);
+                  obj = (if rand_int r 3 = 0 then Some (rand_u r) else None);
+                  small = rand_int r 5 = 0 } in
+        let has_branch_byte l = List.exists (fun b -> b = 0x28 || b = 0x2f) l in
+        if c.maxit <> None || not (has_branch_byte prog || List.exists (fun (a : answer) -> has_branch_byte (List.map int_of_byte a.a_bytes)) answers) then
+          specrun_case emit c prog answers
+      done)
 let init () = ()
